@@ -362,6 +362,36 @@ Fixpoint chd_frames (fuel : nat) (r : list Z) : chd_res :=
     end
   end.
 
+(* checkInitialFlightFrames: the strict reader that runs first. PADDING, PING, CRYPTO with the
+   type in its one-byte encoding, offset and length read by quicvarint.Parse, the announced
+   data present. Yields the frames (one WPad 1 per PADDING byte); None = rejected *)
+Fixpoint strict_frames (fuel : nat) (b : list Z) : option (list wframe) :=
+  match fuel with
+  | O => None
+  | S f =>
+    match b with
+    | [] => Some []
+    | t :: r =>
+      if t =? 0 then option_map (cons (WPad 1)) (strict_frames f r)
+      else if t =? 1 then option_map (cons WPing) (strict_frames f r)
+      else if t =? 6 then
+        match vparse r with
+        | inr (off, _, r1) =>
+          match vparse r1 with
+          | inr (len, _, r2) =>
+            if zlen r2 <? len then None
+            else option_map (cons (WCrypto off (take len r2))) (strict_frames f (drop len r2))
+          | inl _ => None
+          end
+        | inl _ => None
+        end
+      else None
+    end
+  end.
+
+Definition strict_ok (p : list Z) : bool :=
+  match strict_frames (S (length p)) p with Some _ => true | None => false end.
+
 Definition covered_by (cs : list (Z * Z)) (j : Z) : bool :=
   existsb (fun '(o, l) => (o <=? j) && (j <? o + l)) cs.
 
@@ -372,6 +402,7 @@ Fixpoint validate_loop (i : nat) (ps : list (list Z)) (budgets : list Z) (n : Z)
   | p :: ps' =>
     let b := nth (Nat.min i (length budgets - 1)) budgets 0 in
     if (0 <? b) && (b <? zlen p) then inl 2
+    else if negb (strict_ok p) then inl 3
     else match chd_frames (S (length p)) p with
          | ChdErr => inl 3
          | ChdPanic => inl (-1)
